@@ -648,8 +648,15 @@ pub fn render_program(p: &Program, noise: &[u8]) -> (String, Vec<(String, String
         render_noisy(&p.main, noise)
     };
     let mut mods = Vec::new();
-    for (path, src) in &p.modules {
+    for (k, (path, src)) in p.modules.iter().enumerate() {
         let text = match src {
+            ModuleSrc::Ast(s) if !noise.is_empty() => {
+                // each module gets its own arrangement of blank lines and comments
+                let mut nz = noise.to_vec();
+                let r = (k + 1) % nz.len();
+                nz.rotate_left(r);
+                render_noisy(s, &nz)
+            }
             ModuleSrc::Ast(s) => render(s),
             ModuleSrc::Bad(t) => t.clone(),
         };
